@@ -121,10 +121,10 @@ def random_exc(r, honest=True, maxr=MAXR):
 
 
 # ------------------------------------------------------------------ exe: whole exchanges
-def exe_line(kind, reqs, fates, seed=12345, cmid0=100, smid0=-1, adelay=300, dflt=3, nstart=0):
+def exe_line(kind, reqs, fates, seed=12345, cmid0=100, smid0=-1, adelay=300, dflt=3, nstart=0, method=1):
     q = " ".join("%d:%d:%d" % (s, ok, th) for (s, ok, th) in reqs)
-    return "exe K %s P %d M %d %d A %d E %d N %d Q %s F %s" % (
-        kind, seed, cmid0, smid0, adelay, dflt, nstart, q, " ".join(fates))
+    return "exe K %s P %d M %d %d A %d E %d N %d H %d Q %s F %s" % (
+        kind, seed, cmid0, smid0, adelay, dflt, nstart, method, q, " ".join(fates))
 
 
 def exhaustive_fates(n, dup_delay):
@@ -134,9 +134,14 @@ def exhaustive_fates(n, dup_delay):
         yield list(combo)
 
 
-def random_fates(r, n):
+def random_fates(r, n, heavy=False):
+    """heavy: most datagrams are lost, so that the deep retransmission / give-up paths are reached"""
     out = []
     for _ in range(n):
+        x = r.random()
+        if heavy and x < 0.72:
+            out.append("x")
+            continue
         x = r.random()
         d = r.choice([0, 0, 1, 3, 50, 700, 1500, 1999])
         if x < 0.28:
